@@ -119,6 +119,8 @@ def run_mode(pid, mode, seconds, seed, info):
     cmd = [exe, os.path.join(work, "corpus"), "-fork=%d" % jobs, "-max_total_time=%d" % seconds, "-timeout=30", "-rss_limit_mb=4096",
            "-max_len=%d" % max_len, "-len_control=0", "-seed=%d" % (seed + 1), "-ignore_crashes=1", "-ignore_timeouts=1", "-ignore_ooms=1",
            "-artifact_prefix=" + os.path.join(work, "art") + "/"]
+    if mode == "text":
+        cmd.append("-dict=" + os.path.join(FUZZ, "garnish.dict"))
     t0 = time.time()
     try:
         r = subprocess.run(cmd, env=env, stdout=subprocess.PIPE, stderr=subprocess.STDOUT, timeout=seconds + 600, cwd=work)
